@@ -59,11 +59,8 @@ func genBody(parent *html.Node, budget *int, depth int) {
 				// distinct keys whose local names coincide once prefixes are stripped
 				e.Attr = append(e.Attr, html.Attribute{Key: "href", Val: symText()}, html.Attribute{Key: "xlink:href", Val: symText()})
 			case 1:
-				// quick tier: the key is paired with the tag; thorough: every key
+				// the key is paired with the tag
 				ki := ti
-				if nd.Tier() > 0 {
-					ki = nd.Choice(len(keys))
-				}
 				e.Attr = append(e.Attr, html.Attribute{Key: keys[ki], Val: symText()})
 			case 2:
 				e.Attr = append(e.Attr, html.Attribute{Key: "a", Val: symText()}, html.Attribute{Key: "xmlns:x", Val: "u"})
@@ -168,7 +165,7 @@ func same(c xsel.Cursor, n *html.Node) bool {
 func RunHTML() {
 	max := 3
 	if nd.Tier() > 0 {
-		max = 5
+		max = 4
 	}
 	doc := genDoc(max)
 	root, err := xsel.ReadHtml(&hx.HTMLScript{Doc: doc})
